@@ -291,7 +291,7 @@ def obligations(pid, tier):
     pair = []
     for rmax, labels, ids in ([(1, "two", 2), (2, "one", 2), (2, "two", 2)] if quick
                               else [(1, "two", 2), (2, "two", 3), (3, "one", 3)]):
-        for ngt in (0, 1, 3):
+        for ngt in ((0, 1, 3) if rmax < 3 else (2,)):  # three results per frame: one ground-truth count (run time)
             base = dict(rmax=rmax, ngt=ngt, est_labels=labels, ids=ids)
             if rmax >= 2:
                 for a in (0, 1):
@@ -304,8 +304,7 @@ def obligations(pid, tier):
     if not quick:
         pair += [dict(rmax=2, ngt=3, est_labels="one", ids=2, mode=m) for m in ("plane", "iou2d")]
     acc = [dict(frames=3, rmax=1, ngt=2), dict(frames=4, rmax=1, ngt=0), dict(frames=3, rmax=2, ngt=4, optional=False)] \
-        if quick else [dict(frames=3, rmax=2, ngt=4), dict(frames=4, rmax=1, ngt=3), dict(frames=5, rmax=1, ngt=0),
-                       dict(frames=4, rmax=2, ngt=5, optional=False)]
+        if quick else [dict(frames=3, rmax=2, ngt=4), dict(frames=4, rmax=1, ngt=3), dict(frames=5, rmax=1, ngt=0)]
     acc2 = []
     for c in acc:
         if c["rmax"] >= 2:
@@ -345,7 +344,8 @@ def meta(pid):
                             "present or not, symbolic integer ids (alphabet of 3), symbolic scores and threshold, "
                             "ground-truth count {0,1,3}, centre distance (plane distance and BEV IoU: 1 result per frame); accumulator: 3 frames x <= 2 results; renaming: <= 2 per frame; "
                             "scenarios: 2..4 frames x 1..3 targets",
-                   "thorough": "pair step <= 3 results per frame; accumulator 4 frames; scenarios up to 6 frames x 4 targets"},
+                   "thorough": "pair step <= 3 results per frame; accumulator up to 5 frames x 1 or 3 frames x 2; scenarios up to 6 "
+                               "frames x 4 targets"},
         "outside": ["more results per frame than the bound", "long random histories (the quantifier's random part)",
                     "IoU3D mode and rotated boxes (scores are C06's subject)", "tp metrics other than AP"],
         "stand_ins": ["lazy matching wrappers", "numpy proxy"],
